@@ -365,7 +365,9 @@ def _tracking(seq):
     return str(seq.tracking_uid)
 
 
-def _check_report(ctx, c, reqs, pending, only=None):
+def _check_report(ctx, c, reqs, pending, only=None, spec_reqs=None, spec_pending=None):
+    spec_reqs = spec_reqs if spec_reqs is not None else []
+    spec_pending = spec_pending if spec_pending is not None else []
     from gen import srreports
     groups = c['groups']
     n = len(groups)
@@ -393,6 +395,9 @@ def _check_report(ctx, c, reqs, pending, only=None):
             present = tuple(k for k in FILTERS[method] if f[k] is not None)
             reqs.append(('query', {'method': method, 'groups': model_groups,
                                    'filters': {k: (list(v) if isinstance(v, tuple) else v) for k, v in f.items()}}))
+            spec_reqs.append(('spec', reqs[-1][1]))
+            spec_pending.append(({'stream': 'report', 'seed': ctx.seed, 'idx': c['idx'], 'method': method,
+                                  'filters': {k: v for k, v in f.items() if v is not None}, 'what': 'spec'}, why, must, may))
             first = True
             for pname, rep in paths:
                 case = dict(base_case, method=method, filters={k: v for k, v in f.items() if v is not None}, path=pname)
@@ -588,6 +593,7 @@ def run(ctx):
         if case.get('stream') == 'report':
             _check_report(ctx, _report_case(ctx, case['idx']), reqs, pending)
     reqs2, pending2 = [], []
+    spec_reqs, spec_pending = [], []
     _helpers(ctx, reqs2, pending2)
     for idx in range(ctx.n(45, 600)):
         res = _call(_report_case, ctx, idx)
@@ -595,12 +601,24 @@ def run(ctx):
             ctx.fail({'stream': 'report', 'seed': ctx.seed, 'idx': idx}, f'a valid report could not be constructed: {res[2]}',
                      site='report/construct')
             continue
-        _check_report(ctx, res[1], reqs, pending)
-    answers = ctx.model(reqs + reqs2)
+        _check_report(ctx, res[1], reqs, pending, spec_reqs=spec_reqs, spec_pending=spec_pending)
+    answers = ctx.model(reqs + reqs2 + spec_reqs)
     if answers is None:
         return
     _compare(ctx, pending, answers[:len(reqs)])
-    for (case, impl), ans in zip(pending2, answers[len(reqs):]):
+    # the declarative statement of the theorems (specKind && specFilters, Lean) against the oracle's statement (Python)
+    for (case, why, must, may), ans in zip(spec_pending, answers[len(reqs) + len(reqs2):]):
+        if 'ok' not in ans:
+            ctx.disagree('L0', case, None, ans, 'spec: model protocol error')
+            continue
+        if why:
+            continue
+        got = ans['ok']['spec']
+        if not ans['ok']['consistent']:
+            ctx.disagree('L0', case, None, ans, 'spec: generated parameters are not `consistent` (theorem hypothesis)')
+        elif not (set(must) <= set(got) <= set(may)):
+            ctx.disagree('L0', case, {'must': must, 'may': may}, got, 'spec: Lean specKind/specFilters vs oracle predicate')
+    for (case, impl), ans in zip(pending2, answers[len(reqs):len(reqs) + len(reqs2)]):
         if 'proto_err' in ans:
             ctx.disagree('L0', case, impl, ans, 'model protocol error')
             continue
